@@ -22,6 +22,9 @@
 (*    al      id := allocate(); appended to the thread's held list         *)
 (*    de k    deallocate(held[k]) (k counts from 0; no-op if there is none)*)
 (*    fe      for_each                                                     *)
+(*    adv k   white-box: the head's version tag jumps by k, standing for k *)
+(*            allocate/deallocate rounds on other values (reaches version  *)
+(*            distances such as 2^16 in one step)                          *)
 (* (the DepositBox operations em / tk / tr / fr are added by Box.tla)      *)
 (*                                                                         *)
 (* The L1 clauses of property C14 are invariants over the history H at the *)
@@ -50,7 +53,7 @@ Thr == 1..Len(cfg.prog)
 SeqSet(s) == {s[i] : i \in 1..Len(s)}
 AfterSet(t) == SeqSet(cfg.after[t])
 
-\* configuration: [kind, n, fr, own, prog, after, nb]
+\* configuration: [kind, n, fr, own, prog, after, nb, smod]   (smod: see Box.tla; 0 for the real code)
 \*   n    values minted by the set-up;  fr  values freed by the set-up (in this order)
 \*   own  own[t]: set-up values thread t holds at the start
 OpsOf(c) == UNION {{<<t, j>> : j \in 1..Len(c.prog[t])} : t \in 1..Len(c.prog)}
@@ -79,7 +82,9 @@ Lo(x, v) == IF x = HeadLoc THEN v.value ELSE v
 Hi(x, v) == IF x = HeadLoc THEN v.version ELSE 0
 
 L0 == [opi |-> 1, held |-> <<>>, cur |-> NONE, nh |-> 0, idv |-> 0, res |-> NONE, rok |-> 0, item |-> 0,
-       aret |-> "", bid |-> NONE, fe |-> {}, snapFree |-> {}, snapLive |-> {}, skip |-> FALSE]
+       aret |-> "", bid |-> NONE, fe |-> {}, snapFree |-> {}, snapLive |-> {}, skip |-> FALSE,
+       v0 |-> 0,    \* deallocate: version of the head it loaded first (ghost)
+       lag |-> 0]   \* allocate between head load and CAS: by how much retried pushes that landed meanwhile lagged behind (ghost)
 
 \* set-up values that are live at the start
 InitLive(c) == (0..c.n - 1) \ SeqSet(c.fr)
@@ -190,7 +195,7 @@ FreeNow == (0..LastVal(ms, NextLoc) - 1) \ H.live
 
 ICall(t) ==
   /\ CanCall(t)
-  /\ Op(t).op \in {"al", "de", "fe"}
+  /\ Op(t).op \in {"al", "de", "fe", "adv"}
   /\ LET o == Op(t)
          l == L[t]
      IN CASE o.op = "al" ->
@@ -198,28 +203,39 @@ ICall(t) ==
                /\ SetL(t, [l EXCEPT !.aret = "ret", !.snapFree = FreeNow, !.skip = FALSE])
                /\ H' = Enter(H, t)
                /\ ev' = [NoEv EXCEPT !.t = t, !.k = "call", !.op = "al", !.id = -1]
+               /\ ms' = Born(t)
           [] o.op = "de" ->
-               IF o.n + 1 > Len(l.held)
-               THEN /\ Goto(t, "ret")
-                    /\ SetL(t, [l EXCEPT !.skip = TRUE])
-                    /\ H' = Enter(H, t)
-                    /\ ev' = [NoEv EXCEPT !.t = t, !.k = "call", !.op = "de", !.n = o.n, !.id = -1]
-               ELSE LET id == l.held[o.n + 1]
-                    IN /\ Goto(t, "d_hload")
-                       /\ SetL(t, [l EXCEPT !.idv = id.value, !.held = RemoveAt(l.held, o.n + 1), !.aret = "ret", !.skip = FALSE])
-                       /\ H' = [Enter(H, t) EXCEPT !.live = @ \ {id.value}]
-                       /\ ev' = [NoEv EXCEPT !.t = t, !.k = "call", !.op = "de", !.n = o.n, !.id = id.value, !.idh = id.version]
+               /\ IF o.n + 1 > Len(l.held)
+                  THEN /\ Goto(t, "ret")
+                       /\ SetL(t, [l EXCEPT !.skip = TRUE])
+                       /\ H' = Enter(H, t)
+                       /\ ev' = [NoEv EXCEPT !.t = t, !.k = "call", !.op = "de", !.n = o.n, !.id = -1]
+                  ELSE LET id == l.held[o.n + 1]
+                       IN /\ Goto(t, "d_hload")
+                          /\ SetL(t, [l EXCEPT !.idv = id.value, !.held = RemoveAt(l.held, o.n + 1), !.aret = "ret", !.skip = FALSE])
+                          /\ H' = [Enter(H, t) EXCEPT !.live = @ \ {id.value}]
+                          /\ ev' = [NoEv EXCEPT !.t = t, !.k = "call", !.op = "de", !.n = o.n, !.id = id.value, !.idh = id.version]
+               /\ ms' = Born(t)
           [] o.op = "fe" ->
                /\ Goto(t, "f_load")
                /\ SetL(t, [l EXCEPT !.snapLive = H.live, !.skip = FALSE])
                /\ H' = Enter(H, t)
                /\ ev' = [NoEv EXCEPT !.t = t, !.k = "call", !.op = "fe", !.id = -1]
-  /\ ms' = Born(t)
+               /\ ms' = Born(t)
+          [] o.op = "adv" ->
+               \* performed atomically with the call event
+               LET m1 == Born(t)
+                   h == LastVal(m1, HeadLoc)
+               IN /\ Goto(t, "ret")
+                  /\ SetL(t, [l EXCEPT !.skip = FALSE])
+                  /\ H' = Enter(H, t)
+                  /\ ms' = RmwEff(m1, t, HeadLoc, Id(h.value, h.version + o.n), "ar", KeepAll)
+                  /\ ev' = [NoEv EXCEPT !.t = t, !.k = "call", !.op = "adv", !.n = o.n, !.id = h.value, !.idh = h.version + o.n]
   /\ UNCHANGED cfg
 
 IRet(t) ==
   /\ pc[t] = "ret"
-  /\ Op(t).op \in {"al", "de", "fe"}
+  /\ Op(t).op \in {"al", "de", "fe", "adv"}
   /\ LET o == Op(t)
          l == L[t]
      IN CASE o.op = "al" ->
@@ -232,6 +248,10 @@ IRet(t) ==
                /\ H' = Leave(H, t)
                /\ SetL(t, [l EXCEPT !.opi = @ + 1])
                /\ ev' = [NoEv EXCEPT !.t = t, !.k = "ret", !.op = "de", !.n = o.n]
+          [] o.op = "adv" ->
+               /\ H' = Leave(H, t)
+               /\ SetL(t, [l EXCEPT !.opi = @ + 1])
+               /\ ev' = [NoEv EXCEPT !.t = t, !.k = "ret", !.op = "adv", !.n = o.n]
           [] o.op = "fe" ->
                /\ H' = Flag(Leave(H, t), ~H.overlap[t] /\ l.fe # l.snapLive, "ForEachReportsLive")
                /\ SetL(t, [l EXCEPT !.opi = @ + 1])
@@ -251,7 +271,7 @@ AfterHead(t, h) ==
 AHLoad(t, M(_)) ==
   /\ pc[t] = "a_hload"
   /\ DoLoad(t, HeadLoc, "alloc_head_load", M,
-            LAMBDA v : /\ SetL(t, [L[t] EXCEPT !.cur = v])
+            LAMBDA v : /\ SetL(t, [L[t] EXCEPT !.cur = v, !.lag = 0])
                        /\ Goto(t, AfterHead(t, v))
                        /\ H' = Flag(H, AfterHead(t, v) = "dead", "Corrupt"))
   /\ UNCHANGED cfg
@@ -267,7 +287,7 @@ ACas(t, M(_)) ==
   /\ DoCas(t, HeadLoc, L[t].cur, Id(L[t].nh, L[t].cur.version), "alloc_head_cas", M,
            LAMBDA ok, old :
              IF ok THEN UNCHANGED <<L, H>> /\ Goto(t, "a_mark")
-             ELSE /\ SetL(t, [L[t] EXCEPT !.cur = old])
+             ELSE /\ SetL(t, [L[t] EXCEPT !.cur = old, !.lag = 0])
                   /\ Goto(t, AfterHead(t, old))
                   /\ H' = Flag(H, AfterHead(t, old) = "dead", "Corrupt"))
   /\ UNCHANGED cfg
@@ -300,7 +320,7 @@ AllocStep(t, M(_)) == AHLoad(t, M) \/ ANLoad(t, M) \/ ACas(t, M) \/ AMark(t, M) 
 DHLoad(t, M(_)) ==
   /\ pc[t] = "d_hload"
   /\ DoLoad(t, HeadLoc, "dealloc_head_load", M,
-            LAMBDA v : SetL(t, [L[t] EXCEPT !.cur = v]) /\ Goto(t, "d_link"))
+            LAMBDA v : SetL(t, [L[t] EXCEPT !.cur = v, !.v0 = v.version]) /\ Goto(t, "d_link"))
   /\ UNCHANGED <<cfg, H>>
 
 DLink(t, M(_)) ==
@@ -313,7 +333,13 @@ DCas(t, M(_)) ==
   /\ pc[t] = "d_cas"
   /\ DoCas(t, HeadLoc, L[t].cur, Id(L[t].idv, L[t].cur.version + 1), "dealloc_head_cas", M,
            LAMBDA ok, old :
-             IF ok THEN UNCHANGED L /\ Goto(t, L[t].aret)
+             IF ok
+             THEN \* ghost: a push that landed on a retry is `gap` versions ahead of what a version computed at its
+                  \* first head load would have been; allocates parked between head load and CAS remember the sum
+                  LET gap == L[t].cur.version - L[t].v0
+                  IN /\ L' = [u \in DOMAIN L |-> IF u # t /\ pc[u] \in {"a_nload", "a_cas"} /\ gap > 0
+                                                   THEN [L[u] EXCEPT !.lag = @ + gap] ELSE L[u]]
+                     /\ Goto(t, L[t].aret)
              ELSE SetL(t, [L[t] EXCEPT !.cur = old]) /\ Goto(t, "d_link"))
   /\ UNCHANGED <<cfg, H>>
 
